@@ -67,13 +67,16 @@ def run_history(ctx, case):
                 # the genuine peer: its stream-count limits are not configurable
                 self._local_max_streams_bidi.value = self._local_max_streams_bidi.sent = case["streams_bidi"]
                 self._local_max_streams_uni.value = self._local_max_streams_uni.sent = case["streams_uni"]
+                if case.get("asym") and not (remembered == "accepted"):
+                    # the three per-stream limits differ (QuicConfiguration has one knob for all of them)
+                    self._local_max_stream_data_bidi_local, self._local_max_stream_data_bidi_remote, self._local_max_stream_data_uni = case["asym"]
 
+        remembered = case.get("remembered") if sut_is_client else None
         # a client that resumes: an earlier connection to the same server left a session ticket with remembered transport parameters.
         #  "declined": that server advertised large limits, the new one does not accept the ticket (full handshake) and advertises the case's
         #  "accepted": that server advertised zero everywhere, the new one accepts the ticket and advertises the case's (nothing is reduced)
         ticket = None
         sconn_kw = {}
-        remembered = case.get("remembered") if sut_is_client else None
         if remembered:
             store = {}
             got = []
